@@ -144,24 +144,12 @@ def _failing_terms(case):
     return e, [e['terms'][i] for i in f.get('terms', [])]
 
 
-def offset_folded_into_exp(case):
-    """the term that was not found writes U as a*V + b with a non-zero literal offset b: SymPy turns exp(a*V + b) into
-    exp(b)*exp(a*V), the search rebuilds U as a*V + log(exp(b)) and then needs it to match the numerator exactly"""
-    e, ts = _failing_terms(case)
-    if e is None or e['shape'].startswith('prod_same'):
-        return False
-    if case['failure']['kind'] == 'not_repaired':      # the whole equation was left alone: every term must be of this kind
-        return all(t['style'] == 'axb' for t in ts)
-    return any(t['style'] == 'axb' for t in ts)
-
-
 def product_same_singular_point(case):
     """a product of two singular terms that share the singular point"""
     e, ts = _failing_terms(case)
     return e is not None and e['shape'] == 'prod_same'
 
 
-KNOWN_PREDICATES['offset_folded_into_exp'] = offset_folded_into_exp
 KNOWN_PREDICATES['product_same_singular_point'] = product_same_singular_point
 
 
